@@ -201,6 +201,43 @@ func lastObs(e *Exec) string {
 	return ""
 }
 
+// directed: overlapping subscriptions.  A queued message that matched the topic being removed but still matches
+// another subscription of the same context must survive the Unsubscribe and be delivered — "delivers iff it matches a
+// current subscription", and nothing is lost without overflow.
+func runSubOverlappingUnsubscribe(c *Ctx) {
+	cases := [][3][]byte{ // keep, drop, message
+		{[]byte("a"), []byte("ab"), []byte("abc")},
+		{[]byte("ab"), []byte("a"), []byte("abc")},
+		{[]byte(""), []byte("x"), []byte("xyz")},
+		{[]byte("x"), []byte(""), []byte("xyz")},
+		{[]byte{0xff}, []byte{0xff, 0x00}, []byte{0xff, 0x00, 0x01}},
+	}
+	for i, cs := range cases {
+		e := NewExec(c, "m.sub", sub.NewProtocol(), "sub")
+		ctx := 0
+		if i%2 == 1 {
+			ctx = 1
+			e.OpenCtx(1)
+		}
+		e.AddPipe(101)
+		e.SetOpt(ctx, mangos.OptionSubscribe, vp.Hex(cs[0]), append([]byte{}, cs[0]...))
+		e.SetOpt(ctx, mangos.OptionSubscribe, vp.Hex(cs[1]), append([]byte{}, cs[1]...))
+		e.Inject(101, cs[2])
+		e.SetOpt(ctx, mangos.OptionUnsubscribe, vp.Hex(cs[1]), append([]byte{}, cs[1]...))
+		e.Recv(ctx)
+		got := false
+		for _, ev := range splitEvents(lastObs(e)) {
+			if ev.kind == "ret" && ev.msg != nil && bytes.Equal(ev.msg, cs[2]) {
+				got = true
+			}
+		}
+		if !got && !e.broken {
+			c.Violate(fmt.Sprintf("SUB: subscribed to %q and %q, message %q queued, Unsubscribe(%q): the message still matches %q but Recv did not return it (%s)", cs[0], cs[1], cs[2], cs[1], cs[0], lastObs(e)), e.Replay())
+		}
+		e.Finish()
+	}
+}
+
 func runC06(c *Ctx) {
 	c.Rep.Rule = "random histories of subscribe/unsubscribe/publish/receive/open/close/resize on 1-3 contexts and 1-3 publishers of a real SUB protocol instance driven through virtual pipes (topics over {a,b,00,ff}, lengths 0-3, so equal, nested, empty and non-UTF8 topics are frequent); " +
 		"every operation is one trace line checked against the Lean machine; class = (operation, shape of what became observable); non-trivial = anything but an operation with no observable effect"
@@ -211,6 +248,7 @@ func runC06(c *Ctx) {
 	for i := 0; i < n; i++ {
 		runSubScenario(c, 40)
 	}
+	runSubOverlappingUnsubscribe(c)
 	runPubScenarios(c)
 	runSubUnsubscribeRace(c)
 }
